@@ -4,6 +4,7 @@
 (b) accept side: C01/C02/C04/C05-style mutations applied inside the ciphertext, every SP key layout, undecryptable
 content; the verdict for the encrypted form must be REJECT whenever the plain form must be rejected."""
 import base64
+import os
 import itertools
 import re
 from urllib.parse import unquote
@@ -24,14 +25,17 @@ ALLKEYS = ('idpA', 'idpA2', 'idpAenc', 'idpB', 'spX', 'spXenc1', 'spXenc2', 'spY
 def idp_for(enc_layout):
     k = ('idp', enc_layout)
     if k not in _c:
-        keys = [('spX', 'signing')] + [(n, 'encryption') for n in {'one': ['spXenc1'], 'two': ['spXenc1', 'spXenc2'], 'none': []}[enc_layout]]
+        keys = [('spX', 'signing')] + [(n, 'encryption') for n in {'one': ['spXenc1'], 'two': ['spXenc1', 'spXenc2'], 'none': [], 'no-use': []}[enc_layout]]
+        if enc_layout == 'no-use':
+            # the SP publishes one key without a use attribute: good for signing and for encryption
+            keys = [('spXenc1', None)]
         _c[k] = world.make_idp(TMP[0], [world.sp_md(keys=tuple(keys))])
     return _c[k]
 
 
 def emit_cells(thorough):
     out = []
-    for layout, sr, sa, enc, adv, selfc, percert in itertools.product(('one', 'two', 'none'), (False, True), (False, True), (False, True), (False, True),
+    for layout, sr, sa, enc, adv, selfc, percert in itertools.product(('one', 'two', 'none', 'no-use'), (False, True), (False, True), (False, True), (False, True),
                                                                      (True, False), (None, 'spXenc2', 'spY')):
         if not enc and not adv:
             continue
@@ -91,7 +95,7 @@ def evaluate_emit(c):
     if c['seq']:
         _c.pop(('idp', c['layout']), None)
     has_cert = c['layout'] != 'none' or c['percert']
-    recipient = c['percert'] or {'one': 'spXenc1', 'two': 'spXenc1', 'none': None}[c['layout']]
+    recipient = c['percert'] or {'one': 'spXenc1', 'two': 'spXenc1', 'none': None, 'no-use': 'spXenc1'}[c['layout']]
     main_encrypted = c['enc'] and has_cert
     advice_only = c.get('pefim') and has_cert and not c['enc']
     if not main_encrypted and not advice_only:
@@ -345,7 +349,72 @@ def evaluate_accept(c):
         return {'enc': [e['accept'], e.get('exc')], 'bad': bad}
 
 
+# ---------------------------------------------------------------- (c) two responses built concurrently
+
+def sched_world():
+    if 'sched-idp' not in _c:
+        mdx = world.sp_md(keys=(('spX', 'signing'), ('spXenc1', 'encryption')))
+        mdy = world.sp_md(world.SP_Y, keys=(('spY', 'signing'), ('spXenc2', 'encryption')), acs=(('https://spy.example/acs', world.BINDING_HTTP_POST, 0),), slo=())
+        _c['sched-idp'] = world.make_idp(TMP[0], [mdx, mdy])
+    return _c['sched-idp']
+
+
+def sched_bodies():
+    from saml2_tophat import saml
+    idp = sched_world()
+
+    def body(eid, acs, mark):
+        def f():
+            nid = saml.NameID(text='SUBJ-' + mark, format=saml.NAMEID_FORMAT_PERSISTENT)
+            return str(idp.create_authn_response({'givenName': ['GIVEN-' + mark]}, 'req1', acs, eid, name_id=nid,
+                                                 authn={'class_ref': forge.PASSWORD}, encrypt_assertion=True, sign_response=True))
+        return f
+    return [body(SP_X, ACS_POST, 'FOR-X'), body(world.SP_Y, 'https://spy.example/acs', 'FOR-Y')]
+
+
+def sched_check(res):
+    bad = []
+    for i, (mark, own, other) in enumerate((('FOR-X', 'spXenc1', 'spXenc2'), ('FOR-Y', 'spXenc2', 'spXenc1'))):
+        r = res[i]
+        if r[0] != 'ok':
+            bad.append('thread-%d-raised-%s' % (i, r[1]))
+            continue
+        text = r[1]
+        if 'SUBJ-' + mark in text or 'GIVEN-' + mark in text:
+            bad.append('marker-in-clear')
+            continue
+        dec, full = oracle.decrypt_all(text, [own])
+        if not full or 'SUBJ-' + mark not in dec:
+            bad.append('response-for-%s-not-decryptable-with-its-own-key' % mark[-1])
+        d2, _f = oracle.decrypt_all(text, [other])
+        if 'SUBJ-' + mark in d2:
+            bad.append('response-for-%s-decryptable-with-the-other-providers-key' % mark[-1])
+    return bad
+
+
+def sched_files():
+    import saml2_tophat
+    d = os.path.dirname(saml2_tophat.__file__)
+    return (os.path.join(d, 'entity.py'), os.path.join(d, 'server.py'))
+
+
+def evaluate_sched(c):
+    from vp import schedules
+    if 'sched-warm' not in _c:
+        for b in sched_bodies():
+            b()
+        schedules.run_schedule(sched_bodies, [], sched_files(), set())
+        _c['sched-warm'] = True
+    n, bad, npts, capped = schedules.explore(sched_bodies, sched_check, 1, sched_files(), set(), roots=[c['root']])
+    out = []
+    for choices, why, last in bad:
+        out.append(([[i, ch] for i, ch in enumerate(choices) if ch], sorted(set(why))))
+    return {'enc': [True, None], 'bad': None, 'n': n, 'sched_bad': out, 'points': npts}
+
+
 def evaluate(c):
+    if c['t'] == 'sched':
+        return evaluate_sched(c)
     if c['t'] == 'emit':
         return evaluate_emit(c)
     return evaluate_accept(c)
@@ -355,14 +424,30 @@ def run(ctx):
     TMP[0] = ctx.tmp
     c01.TMP[0] = ctx.tmp
     cs = emit_cells(ctx.thorough) + accept_cells(ctx.thorough)
+    # (c) every schedule with at most one preemption of two create_authn_response(encrypt) calls for two SPs on one Server
+    from vp import schedules
+    for b in sched_bodies():
+        b()
+    schedules.run_schedule(sched_bodies, [], sched_files(), set())
+    s0, r0 = schedules.run_schedule(sched_bodies, [], sched_files(), set())
+    for y in sched_check(r0):
+        ctx.violation({'kind': y, 't': 'sched', 'switches': []}, {})
+    sched_roots = schedules.children(s0, 0, 1)
+    cs += [dict(t='sched', root=r) for r in sched_roots]
     res = ctx.pmap(evaluate, cs, chunksize=8)
     ctx.recheck(evaluate, cs, res, n=16)
     per = {}
     acc = 0
     hist = {}
     nontriv = set()
+    n_sched = [1]
     for c, r in zip(cs, res):
         per[c['t']] = per.get(c['t'], 0) + 1
+        if c['t'] == 'sched':
+            n_sched[0] += r['n']
+            for sw, why in r['sched_bad']:
+                ctx.violation({'kind': why[0], 't': 'sched', 'switches': sw}, {'all': why})
+            continue
         if c['t'] == 'emit':
             hist['emit:' + r['outcome']] = hist.get('emit:' + r['outcome'], 0) + 1
             if r['outcome'] == 'encrypted':
@@ -381,8 +466,8 @@ def run(ctx):
         'coverage': {
             'states': len(cs), 'transitions': len(cs) + per.get('accept', 0), 'traces_validated_against_impl': len(cs) + per.get('accept', 0),
             'samples': [{'cell': {k: str(v)[:80] for k, v in cs[i].items() if k != 'doc'}, 'result': res[i]} for i in (0, len(cs) // 2, len(cs) - 1)],
-            'exhaustive': True, 'per_layer': per, 'accepted': acc, 'distinct_outcomes': len(hist), 'outcome_histogram': hist,
-            'rule': '(a) emit: SP encryption certificates in metadata (one, two, none) x sign_response x sign_assertion x encrypt_assertion x encrypted_advice_attributes x self-contained x per-request certificate (absent, two different), the PEFIM profile (attributes in an always-encrypted advice assertion, with and without encryption of the main assertion) + two-step sequences on one Server; leak scan over the emitted text and its base64/percent/entity decodings for unique subject / attribute-name / attribute-value markers, decryption with the recipient key required and with each of the 9 other keys of the world forbidden. (b) accept: %d inner-assertion variants (valid, signature content/value tampered, foreign key, wrong issuer, Conditions/SCD/Session expired, not yet valid, audience other / mixed restrictions, SCD InResponseTo naming another outstanding request with the same and a different came_from, unknown request) x SP key layout (first key, second key, none, outstanding_certs key) x 4 requirement settings x response signed/unsigned, each also in plain form; %d undecryptable variants; the C01 wrapping grammar inside the ciphertext; tampered encrypted advice; every sequence of up to 3 valid responses encrypted for either key of one long-lived SP holding two key pairs (each must be read)' % (len(INNER), len(UNDEC)),
+            'exhaustive': True, 'per_layer': per, 'schedules': n_sched[0], 'scheduling_points_per_execution': len(s0.points), 'accepted': acc, 'distinct_outcomes': len(hist), 'outcome_histogram': hist,
+            'rule': '(a) emit: SP encryption certificates in metadata (one, two, none, one key without a use attribute) x sign_response x sign_assertion x encrypt_assertion x encrypted_advice_attributes x self-contained x per-request certificate (absent, two different), the PEFIM profile (attributes in an always-encrypted advice assertion, with and without encryption of the main assertion) + two-step sequences on one Server; leak scan over the emitted text and its base64/percent/entity decodings for unique subject / attribute-name / attribute-value markers, decryption with the recipient key required and with each of the 9 other keys of the world forbidden. (c) every thread schedule with at most one preemption (line-level points in entity.py and server.py) of two concurrent create_authn_response(encrypt_assertion) calls for two SPs on one Server: each response decryptable with its own SP key only. (b) accept: %d inner-assertion variants (valid, signature content/value tampered, foreign key, wrong issuer, Conditions/SCD/Session expired, not yet valid, audience other / mixed restrictions, SCD InResponseTo naming another outstanding request with the same and a different came_from, unknown request) x SP key layout (first key, second key, none, outstanding_certs key) x 4 requirement settings x response signed/unsigned, each also in plain form; %d undecryptable variants; the C01 wrapping grammar inside the ciphertext; tampered encrypted advice; every sequence of up to 3 valid responses encrypted for either key of one long-lived SP holding two key pairs (each must be read)' % (len(INNER), len(UNDEC)),
         },
         'assumptions': ['xmlsec1 model at the seam (template-driven 3DES/RSA-1_5 encryption, first EncryptedData per run)', 'markers are unique strings so that a substring scan decides leakage'],
     }
@@ -391,6 +476,15 @@ def run(ctx):
 def replay(ctx, w):
     TMP[0] = ctx.tmp
     c01.TMP[0] = ctx.tmp
+    if w.get('t') == 'sched':
+        from vp import schedules, checks
+        from vp.checks import c15
+        for b in sched_bodies():
+            b()
+        schedules.run_schedule(sched_bodies, [], sched_files(), set())
+        s, res = schedules.run_schedule(sched_bodies, c15.expand_switches(w['switches']), sched_files(), set())
+        why = sched_check(res)
+        return {'violation': bool(why), 'why': why}
     c = dict(w)
     c.pop('kind', None)
     if 'wants' in c:
